@@ -101,7 +101,10 @@ def provenance(rep, K):
             elif idx == 'z_mem':
                 ok = val == 'TMIN' and any(st is s or any(x is st for x in ast.walk(s)) for s in K.prologue)
             elif idx == 'z_mem+z_cur':
-                ok = val in ('current_t', 'TMAX_OVLifoverflows>0elsemax(a,b,c,d)')
+                in_epi = any(st is s2 or any(x is st for x in ast.walk(s2)) for s2 in K.epilogue)
+                # inside the loop: the edge time; after the loop: any value that is >= TMAX at loop exit (exact terminator rule: C13.overflow)
+                term = ('TMAX', 'TMAX_OVL', 'current_t', 'max(a,b,c,d)', 'min(a,b,c,d)')
+                ok = val == 'current_t' if not in_epi else (val in term or (isinstance(st.value, ast.IfExp) and cz(st.value.body) in term and cz(st.value.orelse) in term))
             else:
                 ok = False
             rep.ob('C04.provenance', f'store {cz(st)}', ok)
